@@ -23,11 +23,15 @@ namespace c19
    }
 
    template< tracking_mode P, typename Eol >
-   inline void run1( const char* b, unsigned long n, unsigned long k, unsigned long ib, unsigned long il, unsigned long ic, unsigned long* o )
+   inline void run1( const char* b, unsigned long n, unsigned long k, unsigned long j, unsigned long ib, unsigned long il, unsigned long ic, unsigned long* o )
    {
+      // the position is taken after consuming k bytes; the helpers are then asked on an input over the same data that
+      // stands at offset j (before, at or after the position: error reporting after a run, parse-tree nodes, ...)
+      memory_input< P, Eol, const char* > in0( b, b + n, "", ib, il, ic );
+      in0.bump( k );
+      const auto p = in0.position();
       memory_input< P, Eol, const char* > in( b, b + n, "", ib, il, ic );
-      in.bump( k );
-      const auto p = in.position();
+      in.bump( j );
       o[ 0 ] = p.byte;
       o[ 1 ] = p.line;
       o[ 2 ] = p.column;
@@ -45,13 +49,13 @@ namespace c19
 
    // eager run in o[0..8], lazy run in o[9..17]
    template< typename Eol >
-   inline void run( const char* b, unsigned long n, unsigned long k, unsigned long ib, unsigned long il, unsigned long ic, unsigned long* o )
+   inline void run( const char* b, unsigned long n, unsigned long k, unsigned long j, unsigned long ib, unsigned long il, unsigned long ic, unsigned long* o )
    {
-      run1< tracking_mode::eager, Eol >( b, n, k, ib, il, ic, o );
-      run1< tracking_mode::lazy, Eol >( b, n, k, ib, il, ic, o + 9 );
+      run1< tracking_mode::eager, Eol >( b, n, k, j, ib, il, ic, o );
+      run1< tracking_mode::lazy, Eol >( b, n, k, j, ib, il, ic, o + 9 );
    }
 
 }  // namespace c19
 
 #define C19_WRAP( pol ) \
-   extern "C" __attribute__( ( noinline ) ) void w_c19_##pol( const char* b, unsigned long n, unsigned long k, unsigned long ib, unsigned long il, unsigned long ic, unsigned long* o ) { c19::run< tao::pegtl::eol::pol >( b, n, k, ib, il, ic, o ); }
+   extern "C" __attribute__( ( noinline ) ) void w_c19_##pol( const char* b, unsigned long n, unsigned long k, unsigned long j, unsigned long ib, unsigned long il, unsigned long ic, unsigned long* o ) { c19::run< tao::pegtl::eol::pol >( b, n, k, j, ib, il, ic, o ); }
